@@ -223,6 +223,12 @@ func (f genFlags) args() []string {
 
 // generate runs parse -> optimize -> build -> format exactly like main() does.
 func generate(text []byte, f genFlags) (out []byte, stage string, err error) {
+	return generateOpt(text, f, true)
+}
+
+// generateOpt optionally skips the final goimports pass (a deterministic function of the
+// builder output, but by far the most expensive step).
+func generateOpt(text []byte, f genFlags, doFormat bool) (out []byte, stage string, err error) {
 	defer func() {
 		if r := recover(); r != nil {
 			stage = "panic"
@@ -245,6 +251,9 @@ func generate(text []byte, f genFlags) (out []byte, stage string, err error) {
 	if err := builder.BuildParser(&buf, grammar, builder.ReceiverName(recv), builder.Optimize(f.OptimizeParser),
 		builder.BasicLatinLookupTable(f.BasicLatin), builder.Nolint(f.Nolint), builder.SupportLeftRecursion(f.LeftRec)); err != nil {
 		return nil, "build", err
+	}
+	if !doFormat {
+		return buf.Bytes(), "ok", nil
 	}
 	formatted, err := imports.Process("filename", buf.Bytes(), &imports.Options{TabWidth: 8, TabIndent: true, Comments: true, Fragment: true})
 	if err != nil {
